@@ -11,10 +11,10 @@ import (
 
 // HistoryMode selects which oracles run while a history is interpreted.
 type HistoryMode struct {
-	CheckEveryOp    bool // C04: full model comparison after every op
-	RoundTrip       bool // C01: dump before Close == dump after Open, then model comparison, then a second restart
-	RejectedNoop    bool // C05: dump before == dump after for every op that returned an error
-	FinalRestart    bool // close/reopen at the end and compare with the model
+	CheckEveryOp      bool // C04: full model comparison after every op
+	RoundTrip         bool // C01: dump before Close == dump after Open, then model comparison, then a second restart
+	RejectedNoop      bool // C05: dump before == dump after for every op that returned an error
+	FinalRestart      bool // close/reopen at the end and compare with the model
 	UsableAfterReject bool
 }
 
@@ -242,7 +242,6 @@ func runHistoryProperty(t *testing.T, prop, part, rule string, p GenParams, mode
 	})
 }
 
-
 func trimStack(b []byte) string {
 	s := string(b)
 	if len(s) > 2500 {
@@ -250,3 +249,5 @@ func trimStack(b []byte) string {
 	}
 	return s
 }
+
+func stackOf() []byte { return debug.Stack() }
